@@ -345,9 +345,25 @@ sx_parse_list(const char *s, const size_t n, const size_t i)
         rv.status = SXS_UNEXPECTED_END;
         return rv;
     }
-    struct sx_parse_result carres = sx_parse_(s, n, i);
-    if (result_is_empty_listp(&carres) || result_is_error(&carres)) {
+    struct sx_parse_result carres = sx_parse_token(s, n, i);
+    if (result_is_error(&carres)) {
         return carres;
+    }
+    if (carres.status == SXS_SUCCESS && carres.node == NULL) {
+        /* Only white space was left: the list is never closed. */
+        carres.status = SXS_UNEXPECTED_END;
+        return carres;
+    }
+    if (result_is_empty_listp(&carres)) {
+        /* A closing parenthesis ends this list. */
+        return carres;
+    }
+    if (carres.status == SXS_FOUND_LIST) {
+        /* Nested list; an empty one is an element like any other. */
+        carres = sx_parse_list(s, n, carres.position);
+        if (result_is_error(&carres)) {
+            return carres;
+        }
     }
 
     struct sx_parse_result cdrres = sx_parse_list(s, n, carres.position);
@@ -366,6 +382,12 @@ sx_parse_(const char *s, const size_t n, const size_t i)
     struct sx_parse_result rv = sx_parse_token(s, n, i);
     if (rv.status == SXS_FOUND_LIST) {
         return sx_parse_list(s, n, rv.position);
+    }
+    if (result_is_empty_listp(&rv)) {
+        /* A closing parenthesis without a list to close. */
+        sx_destroy(&rv.node);
+        rv.status = SXS_UNKNOWN_INPUT;
+        return rv;
     }
     if (i >= n && rv.node == NULL) {
         rv.status = SXS_UNEXPECTED_END;
